@@ -226,7 +226,9 @@ def run(chk, R, tier, seed):
 
     # ---- unknown codes
     unknown = excluded + ["eur", "usd", "ABC", "", "EURO", "XX", "€", "ZZZ",
-                          "Eur", " EUR"]
+                          "Eur", " EUR",
+                          # symbols of units of other quantity types
+                          "kg", "m", "J", "B", "°C", "km/h", "kWh"]
     for _ in range(40):
         c = "".join(rng.choice("ABCDEFGHIJKLMNOPQRSTUVWXYZ") for _ in range(3))
         if c not in table:
@@ -246,6 +248,14 @@ def run(chk, R, tier, seed):
                 chk.violation("register_currency(%r): expected ValueError, "
                               "got %s" % (code, brief(r)),
                               dict(obs=obs, steps=steps), "unknown-code")
+            elif code in ("kg", "m", "J", "B", "°C", "km/h", "kWh"):
+                chk.count("symbols of other types' units rejected as codes")
+                u = obs.get("u", {})
+                if u.get("k") != "U" or u.get("t") == "Money":
+                    chk.violation("after register_currency(%r) was refused, "
+                                  "Unit(%r) is %s" % (code, code, brief(u)),
+                                  dict(obs=obs, steps=steps),
+                                  "unknown-code-trace")
             elif not is_exc(obs.get("u"), "ValueError"):
                 chk.violation("rejected code %r is a known unit afterwards" %
                               code, dict(obs=obs, steps=steps),
